@@ -328,70 +328,3 @@ def e_download_race(k: int) -> bool:
         if not ok:
             _say(msg)
         return ok
-
-
-# --------------------------------------------------------------------------- S: prefix filter of Local.list_files over a symbolic tree
-class _FEntry:
-    def __init__(self, path, name, is_dir):
-        self.path, self.name, self._d = path, name, is_dir
-
-    def is_dir(self, follow_symlinks=True):
-        return self._d
-
-    def is_file(self, follow_symlinks=True):
-        return not self._d
-
-    def __fspath__(self):
-        return self.path
-
-
-class _FScan:
-    def __init__(self, entries):
-        self.e = entries
-
-    def __enter__(self):
-        return iter(self.e)
-
-    def __exit__(self, *a):
-        return False
-
-    def __iter__(self):
-        return iter(self.e)
-
-
-def s_prefix(a: str, b: str, c: str, prefix: str) -> bool:
-    """The real Local.list_files (and iterative_scandir) over an in-memory directory tree holding the objects `a/b`, `a/c`
-    and `c` (symbolic segment names) with a symbolic prefix: the listing is exactly the names that start with the prefix.
-    pre: 1 <= len(a) <= 2 and 1 <= len(b) <= 2 and 1 <= len(c) <= 2 and len(prefix) <= 3
-    pre: all(ch not in '/\\x00.' for ch in a + b + c) and '\\x00' not in prefix and '//' not in prefix and '.' not in prefix
-    pre: a != c and b != c and not prefix.startswith('/')
-    post: _
-    """
-    import replicat.utils.fs as FS
-    root = '/R'
-    tree = {root: [(a, True), (c, False)], root + '/' + a: [(b, False), (c, False)]}
-    names = [a + '/' + b, a + '/' + c, c]
-
-    def scandir(p):
-        p = os.fspath(p)
-        while len(p) > 1 and p.endswith('/'):
-            p = p[:-1]
-        if p not in tree:
-            raise FileNotFoundError(p)
-        return _FScan([_FEntry(p + '/' + n, n, d) for n, d in tree[p]])
-
-    class _OS:
-        def __getattr__(self, n):
-            return getattr(os, n)
-    shim = _OS()
-    shim.scandir = scandir
-    saved = (LB.os, FS.os)
-    LB.os, FS.os = shim, shim
-    try:
-        be = LB.Local.__new__(LB.Local)
-        be.path = Path(root)
-        got = sorted(be.list_files.__wrapped__(be, prefix)) if hasattr(be.list_files, '__wrapped__') else sorted(be.list_files(prefix))
-    finally:
-        LB.os, FS.os = saved
-    want = sorted(n for n in names if n.startswith(prefix))
-    return got == want
